@@ -59,9 +59,8 @@ theorem schema_condition_wf : ∀ (fp fs : Nat) (v : PyVal), Src.schema_def fs .
       cases v with
       | dict kvs =>
         simp only [Src.schema_def] at h
-        have hb : JS.typeIs "boolean" (.dict kvs) = false := rfl
-        rw [JS.oneOf_false_cons hb] at h
-        have h := JS.oneOf_single h
+        -- exactly one of: a boolean, an object with one known key; the first does not apply to an object
+        have h : _ = true := (JS.oneOf_two h).resolve_left (by simp [JS.typeIs])
         simp only [Bool.and_eq_true] at h
         have hp := h.2
         simp only [parseCond]
@@ -73,12 +72,12 @@ theorem schema_condition_wf : ∀ (fp fs : Nat) (v : PyVal), Src.schema_def fs .
           apply relWF_of
           intro kvs2 e x hx
           rw [e] at h2
-          have hb2 : (JS.typeIs "string" (.dict kvs2) && JS.minLength (.dict kvs2) 1) = false := rfl
-          rw [JS.oneOf_false_cons hb2] at h2
-          have h2 := JS.oneOf_single h2
-          simp only [Bool.and_eq_true] at h2
-          have h3 := JS.props_lookup h2.2 (k := "ctx") (by mem_key) hx
-          exact JS.typeIs_object_isDict h3
+          -- exactly one of the two spellings; the string one does not apply to an object (whatever the order of the branches)
+          rcases JS.oneOf_two h2 with h2 | h2 <;>
+            first
+            | (exfalso; simp [JS.typeIs] at h2; done)
+            | (simp only [Bool.and_eq_true] at h2
+               exact JS.typeIs_object_isDict (JS.props_lookup h2.2 (k := "ctx") (by mem_key) hx))
         · split
           · -- one of the 15 binary operators: a two-element list
             rename_i op hfind
